@@ -5,6 +5,9 @@
 //!    abortpolls=<k>   abort predicate returns true from its k-th poll on (k = 0: always)
 //!    abortms=<ms>     abort predicate returns true once <ms> milliseconds have elapsed
 //! answer: `<result> | <trace> | polls=<total polls> late=<polls answered true> lat_ms=<ms between first true poll and return> foreign=<k>`
+//!   blind_ms = (abortms only) time between the instant the predicate starts answering true and its next call (or the return):
+//!             the request is pending and nobody looks; after_flip = kind of the first trace event after that instant (the stage
+//!             that was running)
 //!   foreign = abort decisions of factor_impl (trace events `abort`) that were NOT taken by calling the installed predicate
 //!             (the predicate logs every call; a decision must directly follow a call with the same answer); 0 without predicate
 //!   result = `ok f1,f2,...` | `failure`   (a panic answers `panic` for the whole line)
@@ -19,13 +22,30 @@ use yamaquasi::{factor, Algo, Preferences, Verbosity};
 /// `abort <n> <ans>` events (decisions of factor_impl) that do not directly follow a call with the same answer:
 /// such a decision consulted something else than the caller's predicate.
 pub fn strip_polls(tr: Vec<String>) -> (Vec<String>, u64) {
+    let (out, foreign, _) = strip_polls_flip(tr);
+    (out, foreign)
+}
+
+/// Same, and also removes the `flip` marker (pushed by a timer thread at the instant a time-based abort predicate
+/// starts answering true) and reports the kind of the first sub-algorithm event recorded after it: the stage that was
+/// running when the request arrived (`-` when there is no marker or nothing follows it).
+pub fn strip_polls_flip(tr: Vec<String>) -> (Vec<String>, u64, String) {
     let mut out = Vec::with_capacity(tr.len());
     let mut foreign = 0u64;
     let mut prev: Option<String> = None;
+    let mut flipped = false;
+    let mut after = "-".to_string();
     for e in tr {
+        if e == "flip" {
+            flipped = true;
+            continue;
+        }
         if e.starts_with("poll ") {
             prev = Some(e);
             continue;
+        }
+        if flipped && after == "-" {
+            after = e.split(' ').next().unwrap_or("-").to_string();
         }
         if let Some(rest) = e.strip_prefix("abort ") {
             let ans = rest.rsplit(' ').next().unwrap_or("");
@@ -36,7 +56,7 @@ pub fn strip_polls(tr: Vec<String>) -> (Vec<String>, u64) {
         prev = None;
         out.push(e);
     }
-    (out, foreign)
+    (out, foreign, after)
 }
 
 pub fn algo_of(s: &str) -> Option<Algo> {
@@ -83,9 +103,33 @@ pub fn handle(op: &str, a: &[&str]) -> Option<String> {
                 }
             }
             yamaquasi::verif_hooks::start();
+            // time-based predicate: a timer thread marks the instant of the request in the trace
+            let finished = Arc::new(std::sync::atomic::AtomicBool::new(false));
+            let flip_ms: Option<u64> = a[2..].iter().find_map(|kv| kv.strip_prefix("abortms=").and_then(|v| v.parse().ok()));
+            if let Some(ms) = flip_ms {
+                let fin = finished.clone();
+                std::thread::spawn(move || {
+                    let el = start.elapsed().as_millis() as u64;
+                    if ms > el {
+                        std::thread::sleep(std::time::Duration::from_millis(ms - el));
+                    }
+                    if !fin.load(Ordering::SeqCst) {
+                        yamaquasi::verif_hooks::ev("flip".to_string());
+                    }
+                });
+            }
             let r = std::panic::catch_unwind(std::panic::AssertUnwindSafe(|| factor(n, alg, &prefs)));
             let end = start.elapsed().as_micros() as u64;
-            let (tr, foreign) = strip_polls(yamaquasi::verif_hooks::take());
+            finished.store(true, Ordering::SeqCst);
+            let (tr, foreign, after_flip) = strip_polls_flip(yamaquasi::verif_hooks::take());
+            // time during which the request was pending without the predicate being consulted
+            let blind_ms = match flip_ms {
+                Some(ms) if end > ms * 1000 => {
+                    let ft = first_true_us.load(Ordering::SeqCst);
+                    ((if ft == 0 { end } else { ft.min(end) }).saturating_sub(ms * 1000)) / 1000
+                }
+                _ => 0,
+            };
             let foreign = if prefs.should_abort.is_some() { foreign } else { 0 };
             let trace = if tr.is_empty() {
                 "-".to_string()
@@ -100,7 +144,7 @@ pub fn handle(op: &str, a: &[&str]) -> Option<String> {
             let ft = first_true_us.load(Ordering::SeqCst);
             let lat = if ft == 0 { 0 } else { (end - ft.min(end)) / 1000 };
             Some(format!(
-                "{res} | {trace} | polls={} late={} lat_ms={} foreign={foreign}",
+                "{res} | {trace} | polls={} late={} lat_ms={} foreign={foreign} blind_ms={blind_ms} after_flip={after_flip}",
                 polls.load(Ordering::SeqCst),
                 late.load(Ordering::SeqCst),
                 lat
